@@ -52,6 +52,12 @@ EXEMPT = {
 
 ENTRY_ONLY_EXEMPT = {"ops::Rank::rank_zero|Overflow(Sub)|"}
 
+# The same reviewed reasons when the arithmetic sits one call further down (the exempt function delegating to a rounding helper):
+# an alarm in a callee all of whose raw-value callers are these functions inherits their exemption.
+EXEMPT_VIA = {
+    "bits::bits_to_words": "documented `# Panics`: n + 63 > usize::MAX; n is a bit length that is about to be allocated (the rounding is delegated to a helper)",
+}
+
 
 def entry_table(F):
     entries = {}
@@ -132,6 +138,13 @@ def check_config(ctx, F, tag):
                 ctx.ob("C09.R1.raw-value-bounded", key + tag, a["where"], False, "guard-dominance",
                        "%s is defined for arguments up to len (%s); it is reached with an unclamped caller-supplied value from %s, so the result is "
                        "index - count_ones instead of the documented answer at len" % (a["fn"], EXEMPT[ex[0]][:60], callers))
+                continue
+        if not ex:
+            callers = {o[0] for (f_, i_), lst in an.all_origins.items() if f_ == a["fn"] for o in lst}
+            if callers and callers <= set(EXEMPT_VIA) and a["kind"] == "overflow":
+                why = EXEMPT_VIA[sorted(callers)[0]]
+                ctx.exempt("C09.R1.raw-value-bounded", key, a["where"], why)
+                ctx.ob("C09.R1.raw-value-bounded", key + tag, a["where"], True, "reviewed-exemption", why + " [reached via %s]" % a["chain"])
                 continue
         if ex:
             ctx.exempt("C09.R1.raw-value-bounded", key, a["where"], EXEMPT[ex[0]])
